@@ -336,6 +336,18 @@ class Gen:
                 ops.append([self.pick(["eq", "ne", "lt", "lteq", "gt", "gteq"]), self.ty(same, d - 1)])
             return [A("cmp"), self.ty(same, d - 1)] + ops
         if k < 0.4:
+            if r.random() < 0.35 * self.consts:
+                # containment between two constants where the two directions differ (a proper substring; a list among lists)
+                whole = r.choice([p for p in STR_POOL if len(p) >= 2])
+                i0 = r.randrange(0, len(whole) - 1)
+                sub = whole[i0:r.randrange(i0 + 1, len(whole))] or whole[:1]
+                k1 = c(r.randrange(0, 3))
+                return self.pick([
+                    [A("cmp"), cs(sub), [self.pick(["in", "notin"]), cs(whole)]],
+                    [A("cmp"), cs(sub), [self.pick(["in", "notin"]), [A("filter"), cs(whole), self.pick(["lower", "upper", "string"])]]],
+                    [A("cmp"), [A("list"), k1], [self.pick(["in", "notin"]), [A("list"), [A("list"), k1], [A("list"), c(7)]]]],
+                    [A("cmp"), [A("tuple"), k1, c(2)], [self.pick(["in", "notin"]), [A("list"), [A("tuple"), k1, c(2)]]]],
+                ])
             coll = self.pick([self.intlist, self.strlist, self.str, lambda dd: n("d"), lambda dd: n("zz")])
             return [A("cmp"), self.pick([self.int, self.str])(d - 1), [self.pick(["in", "notin"]), coll(d - 1)]]
         if k < 0.6:
